@@ -310,11 +310,21 @@ func (p *parser) parseScheduleEvent(pos *Pos, n *yaml.Node) *ScheduledEvent {
 	cron := make([]*String, 0, len(n.Content))
 	for _, c := range n.Content {
 		m := p.parseMapping("element of \"schedule\" section", c, false, true)
-		if len(m) != 1 || m[0].id != "cron" {
+		var cronVal *yaml.Node
+		for _, kv := range m {
+			if kv.id == "cron" {
+				cronVal = kv.val
+			}
+		}
+		if len(m) != 1 || cronVal == nil {
 			p.error(c, "element of \"schedule\" section must be mapping and must contain one key \"cron\"")
+		}
+		if cronVal == nil {
 			continue
 		}
-		s := p.parseString(m[0].val, false)
+		// Parse the value of "cron" even if the element contains other keys so that an unexpected
+		// key does not hide errors in the "cron" value
+		s := p.parseString(cronVal, false)
 		if s != nil {
 			cron = append(cron, s)
 		}
